@@ -288,7 +288,7 @@ func (t *tracer) exit(used uint64, err error) {
 	t.stack = t.stack[:len(t.stack)-1]
 	f.used = used
 	f.class, f.errStr = classify(err)
-	if errors.Is(err, vm.ErrInsufficientBalance) || errors.Is(err, vm.ErrDepth) {
+	if errors.Is(err, vm.ErrInsufficientBalance) || errors.Is(err, vm.ErrDepth) || errors.Is(err, vm.ErrContractAddressCollision) {
 		f.drop = true
 	}
 }
